@@ -181,4 +181,18 @@ func init() {
 		Assumptions: []string{"batch operations succeed", "domain matcher returns an arbitrary bitmap per name"},
 		QuickBudget: 8 * time.Minute, ThoroughBudget: 60 * time.Minute,
 	}
+	checks["C11"] = &CheckDef{
+		Pkgs:    []string{"./component/routing/domain_matcher", "./pkg/trie", "./common/bitlist"},
+		Harness: []string{"common/bitlist:Verif_C11_bitlist", "pkg/trie:Verif_C11_trie_contract", "pkg/trie:Verif_C11_trie_words", "component/routing/domain_matcher:Verif_C11_kinds", "component/routing/domain_matcher:Verif_C11_invalid_skipped"},
+		MaxIter: 2000,
+		Level:   "other",
+		LevelText: "The real AhocorasickSlimtrie (AddSet, Build, MatchDomainBitmap, ToSuffixTrieString) over the real succinct trie (trie.NewTrie, HasPrefix, countZeros, selectIthOne, init) and packed bit list (CompactBitList Set/Get/Append/Tighten) is executed with pattern sets of two kinds at bit indices 1 and 33 and a symbolic host name (mixed case, optional trailing dot): the solver shows each set's bit equal to the statement's meaning of its kind (full / suffix with and without leading dot / keyword) and all other bits clear, that patterns with characters outside the alphabet are skipped without effect, that the trie decides 'some key is a prefix of the word' for key sets with nested and duplicate keys and the alphabet's zero character, also for a key set whose rank/select tables span several 64-bit words, and that the bit list reads back what was written for every unit width 1..17 and arbitrary values.",
+		LevelNote: "Trusted: go/ssa, executor, z3, the kind semantics written in the harness. The Aho-Corasick automaton (third party) is used through its contract (Contains <=> a pattern is a substring); Go regexp (regex kind) is not exercised. Patterns and trie keys are chosen from pools so that the succinct structure is built concretely; names / words / bit-list values are symbolic.",
+		Technique: techniqueText,
+		Explanation: "Bounded symbolic execution of the domain matcher, the succinct trie and the packed bit list.",
+		Bounds:  map[string]string{"quick": "kinds: set at bit 1 = 1-2 patterns from {a, a.b, .b, ab, b.a, a-b} of any of 3 kinds, set at bit 33 = {a.b} of any kind; names of 1-3 symbolic bytes over {a,b,A,.} with optional trailing dot; trie contract: 2 keys from an 8-key pool, words <=3 bytes over {0,a,b,.}; trie words: 67 keys (3-word tables), every 3-letter query over a..l; bit list: widths 1..17, 6 arbitrary values, one overwrite", "thorough": "names <=4 bytes over {a,b,A,.,-}, 3 keys from a 10-key pool, words <=4 bytes incl. '^' and an invalid byte"},
+		Outside: []string{"regex kind (Go regexp)", "the Aho-Corasick automaton's own correctness", "geosite-scale sets"},
+		Assumptions: []string{"ahocorasick.Matcher.Contains by contract", "runtime.GOMAXPROCS = 8; goroutines of Build run to completion in spawn order"},
+		QuickBudget: 8 * time.Minute, ThoroughBudget: 60 * time.Minute,
+	}
 }
